@@ -348,38 +348,39 @@ Qed.
 Lemma rollback_scripts_shape st to : forall l ops,
   rollback_scripts st to l = Ok ops ->
   (forall k t, ~ In (W_put_hist k t) ops) /\
-  (forall ss e, In ss l -> to <= ss_number ss ->
+  (forall ss e, In ss l ->
      In e (script_history_desc st (ss_type ss) (ss_script ss) to) ->
      let '((_, _, bn, ti, ci, io), _) := e in In (W_del_hist (ss_type ss, ss_script ss, bn, ti, ci, io)) ops \/ (io <> 0 /\ io <> 1)).
 Proof.
   induction l as [|x l IH]; intros ops H.
   - inversion H; subst. split; [intros ? ? [] | intros ? ? []].
-  - cbn [rollback_scripts] in H. destruct (N.leb_spec to (ss_number x)) as [Hle|Hgt].
-    + destruct (map_res_ops _ _) as [a| |] eqn:A; cbn [bind] in H; try discriminate.
-      destruct (rollback_scripts st to l) as [b| |] eqn:B; cbn [bind] in H; try discriminate.
-      inversion H; subst; clear H. destruct (IH b eq_refl) as [I1 I2]. split.
-      * intros k t Hin. apply in_app_or in Hin. destruct Hin as [Hin|[Hin|Hin]]; [|discriminate|exact (I1 _ _ Hin)].
-        eapply map_res_ops_no_put; [|exact A|exact Hin].
+  - cbn [rollback_scripts] in H.
+    destruct (map_res_ops _ _) as [a| |] eqn:A; cbn [bind] in H; try discriminate.
+    destruct (rollback_scripts st to l) as [b| |] eqn:B; cbn [bind] in H; try discriminate.
+    inversion H; subst; clear H. destruct (IH b eq_refl) as [I1 I2]. split.
+    + intros k t Hin. apply in_app_or in Hin. destruct Hin as [Hin|Hin].
+      * eapply map_res_ops_no_put; [|exact A|exact Hin].
         intros e eops _ He. apply (rollback_entry_ops_shape _ _ _ _ _ He).
-      * intros ss e [->|Hin] Hn He.
-        -- destruct (map_res_ops_all_ok _ _ _ _ A He) as [eops Fe].
-           pose proof (rollback_entry_ops_shape _ _ _ _ _ Fe) as [_ S2].
-           destruct e as [[[[[[a1 a2] bn] ti] ci] io] t]. destruct S2 as [S2|S2]; [|right; exact S2].
-           left. apply in_or_app. left. eapply map_res_ops_in; eauto.
-        -- specialize (I2 ss e Hin Hn He). destruct e as [[[[[[a1 a2] bn] ti] ci] io] t].
-           destruct I2 as [I2|I2]; [left | right; exact I2]. apply in_or_app. right. right. exact I2.
-    + destruct (IH ops H) as [I1 I2]. split; [exact I1|].
-      intros ss e [->|Hin] Hn He; [lia | exact (I2 ss e Hin Hn He)].
+      * apply in_app_or in Hin. destruct Hin as [Hin|Hin]; [|exact (I1 _ _ Hin)].
+        destruct (to <=? ss_number x); [destruct Hin as [Hin|[]]; discriminate | destruct Hin].
+    + intros ss e [->|Hin] He.
+      * destruct (map_res_ops_all_ok _ _ _ _ A He) as [eops Fe].
+        pose proof (rollback_entry_ops_shape _ _ _ _ _ Fe) as [_ S2].
+        destruct e as [[[[[[a1 a2] bn] ti] ci] io] t]. destruct S2 as [S2|S2]; [|right; exact S2].
+        left. apply in_or_app. left. eapply map_res_ops_in; eauto.
+      * specialize (I2 ss e Hin He). destruct e as [[[[[[a1 a2] bn] ti] ci] io] t].
+        destruct I2 as [I2|I2]; [left | right; exact I2]. apply in_or_app. right. apply in_or_app. right. exact I2.
 Qed.
 
-(* after a rollback to [to], no history entry of a rolled-back script at or above [to] remains:
-   everything the abandoned blocks recorded for it is gone *)
+(* after a rollback to [to], no history entry of a registered script at or above [to] remains - whatever block number is
+   recorded for the script (index entries of a block are written before the numbers are raised): everything the
+   abandoned blocks recorded is gone *)
 Lemma rollback_history_gone st to st' ss bn ti ci io t :
   rollback_to_block st to = Ok st' ->
-  In ss (scripts st) -> to <= ss_number ss -> to <= bn -> (io = 0 \/ io = 1) ->
+  In ss (scripts st) -> to <= bn -> (io = 0 \/ io = 1) ->
   ~ In ((ss_type ss, ss_script ss, bn, ti, ci, io), t) (history st').
 Proof.
-  unfold rollback_to_block. intros H Hss Hn Hbn Hio Hin.
+  unfold rollback_to_block. intros H Hss Hbn Hio Hin.
   destruct (rollback_scripts st to (scripts st)) as [ops| |] eqn:R; cbn [bind] in H; try discriminate.
   inversion H; subst; clear H. rewrite commit_history in Hin.
   destruct (rollback_scripts_shape st to _ _ R) as [S1 S2].
@@ -390,7 +391,7 @@ Proof.
   destruct (hist_after_batch _ _ _ _ Hno Hin) as [H1 H2].
   assert (He : In ((ss_type ss, ss_script ss, bn, ti, ci, io), t) (script_history_desc st (ss_type ss) (ss_script ss) to)).
   { apply script_history_desc_in. split; [exact H1|]. rewrite !N.eqb_refl. cbn [andb]. apply N.leb_le. exact Hbn. }
-  specialize (S2 ss _ Hss Hn He). cbn in S2. destruct S2 as [S2|[S2 S3]]; [|destruct Hio; contradiction].
+  specialize (S2 ss _ Hss He). cbn in S2. destruct S2 as [S2|[S2 S3]]; [|destruct Hio; contradiction].
   apply H2. apply in_or_app. left. exact S2.
 Qed.
 
@@ -416,10 +417,12 @@ Qed.
 Lemma rollback_scripts_no_set_min st to : forall l ops n, rollback_scripts st to l = Ok ops -> ~ In (W_set_min n) ops.
 Proof.
   induction l as [|x l IH]; intros ops n H; [inversion H; subst; intros []|].
-  cbn [rollback_scripts] in H. destruct (to <=? ss_number x); [|eapply IH; eauto].
+  cbn [rollback_scripts] in H.
   destruct (map_res_ops _ _) as [a| |] eqn:A; cbn [bind] in H; try discriminate.
   destruct (rollback_scripts st to l) as [b| |] eqn:B; cbn [bind] in H; try discriminate.
-  inversion H; subst; clear H. intros Hin. apply in_app_or in Hin. destruct Hin as [Hin|[Hin|Hin]]; [|discriminate|exact (IH _ _ eq_refl Hin)].
+  inversion H; subst; clear H. intros Hin. apply in_app_or in Hin. destruct Hin as [Hin|Hin].
+  2:{ apply in_app_or in Hin. destruct Hin as [Hin|Hin]; [|exact (IH _ _ eq_refl Hin)].
+      destruct (to <=? ss_number x); [destruct Hin as [Hin|[]]; discriminate | destruct Hin]. }
   clear - A Hin. revert a A Hin. generalize (script_history_desc st (ss_type x) (ss_script x) to). intros l0.
   induction l0 as [|e l0 IH]; intros a A Hin; [inversion A; subst; contradiction|].
   cbn [map_res_ops] in A. destruct (rollback_entry_ops st (ss_type x) (ss_script x) e) as [eo| |] eqn:E; cbn [bind] in A; try discriminate.
